@@ -315,10 +315,13 @@ impl<'ast> Visit<'ast> for V {
             let disc = v.discriminant.as_ref().map(|(_, e)| e.to_token_stream().to_string()).unwrap_or_default();
             format!("{{\"name\":{},\"fields\":{},\"discr\":{}}}", js(&v.ident.to_string()), nf, js(&disc))
         }).collect();
+        let attrs: Vec<String> = e.attrs.iter()
+            .filter(|a| !a.path().is_ident("derive") && !a.path().is_ident("doc"))
+            .map(|a| js(&a.meta.to_token_stream().to_string())).collect();
         self.enums.push(format!(
-            "{{\"name\":{},\"line\":{},\"derives\":{},\"variants\":{}}}",
+            "{{\"name\":{},\"line\":{},\"derives\":{},\"attrs\":{},\"variants\":{}}}",
             js(&e.ident.to_string()), e.span().start().line,
-            jarr(&derives.iter().map(|d| js(d)).collect::<Vec<_>>()), jarr(&vars)
+            jarr(&derives.iter().map(|d| js(d)).collect::<Vec<_>>()), jarr(&attrs), jarr(&vars)
         ));
         visit::visit_item_enum(self, e);
     }
